@@ -36,7 +36,7 @@ RULE = (
 )
 VARIANTS = {"quick": ["plain", "asan"], "thorough": ["plain", "asan"]}
 BUDGET = {"quick": dict(cases=480000, seconds=150), "thorough": dict(cases=4000000, seconds=1100)}
-MIN_NONTRIVIAL = {"quick": 100000, "thorough": 1000000}
+MIN_NONTRIVIAL = {"quick": 50000, "thorough": 500000}
 ASSUMPTIONS = [
     "the Python definition in kernel-specification.yml is the specification; for the 30 kernels whose YAML says "
     "'Insert Python definition here' a harness-written reference (kernel_overrides.HARNESS_DEFINITIONS) or only the "
